@@ -24,6 +24,15 @@ def run(ctx, prop, n=None):
             ctx.design("GroupHandover", "GroupHandover_%s.cfg" % proto, timeout=900, tag="handover_" + proto)
         m = ctx.tlc("GroupHandover", "GroupHandover_mut.cfg", workers=4, timeout=600, tag="handover_mutant", allow_fail=True)
         ctx.notes["design_mutant_ack_before_revoke_ends_rejected"] = bool(m.violated)
+    if prop == "C09":
+        # commit chaining design model: the code's policy (wait for the previous commit) keeps arrival order and last-wins;
+        # the two mutants (cancel the previous commit / do not chain) and the user-cancellation boundary are rejected by TLC
+        ctx.design("CommitChain", "CommitChain_big.cfg" if ctx.tier == "thorough" else "CommitChain.cfg", timeout=900, tag="commitchain")
+        for cfg, note in (("CommitChain_mut.cfg", "design_mutant_cancel_prior_commit_rejected"),
+                          ("CommitChain_mut2.cfg", "design_mutant_unchained_commits_rejected"),
+                          ("CommitChain_usercancel.cfg", "design_boundary_user_cancel_in_flight_can_reorder")):
+            m = ctx.tlc("CommitChain", cfg, workers=4, timeout=600, tag=cfg[:-4], allow_fail=True)
+            ctx.notes[note] = bool(m.violated)
     mode = "commits" if prop == "C09" else "members"
     n = n or ((150 if mode == "members" else 300) if ctx.tier == "quick" else (1500 if mode == "members" else 3000))
     out = os.path.join(ctx.work, "group_trace_raw.ndjson")
